@@ -690,7 +690,7 @@ hdf_write_dim(XDR *xdrs, NC *handle, NC_dim **dim, int32 cnt)
     int32 refs[100];
     int32 count;
     const char *class          = NULL;
-    char  name[H4_MAX_NC_NAME] = "";
+    char  name[H4_MAX_NC_NAME + 1] = "";
     int32 ret_value            = SUCCEED;
 
     /*
@@ -1153,7 +1153,7 @@ done:
 int
 hdf_read_dims(XDR *xdrs, NC *handle, int32 vg)
 {
-    char     vgname[H4_MAX_NC_NAME]   = "";
+    char     vgname[H4_MAX_NC_NAME + 1] = "";
     char     vsclass[H4_MAX_NC_CLASS] = "";
     char     vgclass[H4_MAX_NC_CLASS] = "";
     int      id, count, i, found;
@@ -1512,8 +1512,8 @@ done:
 int
 hdf_read_vars(XDR *xdrs, NC *handle, int32 vg)
 {
-    char vgname[H4_MAX_NC_NAME]  = "";
-    char subname[H4_MAX_NC_NAME] = "";
+    char vgname[H4_MAX_NC_NAME + 1]  = "";
+    char subname[H4_MAX_NC_NAME + 1] = "";
     char class[H4_MAX_NC_CLASS]  = "";
     NC_var      **variables      = NULL;
     NC_var       *vp             = NULL;
